@@ -198,6 +198,9 @@ jose_jws_sig_io(jose_cfg_t *cfg, json_t *jws, json_t *sig, const json_t *jwk)
             else
                 tmp = json_deep_copy(sig);
 
+            if (sig && !tmp)
+                return NULL;
+
             ios[i] = jose_jws_sig_io(cfg, jws, tmp, key);
             if (!ios[i])
                 return NULL;
